@@ -1897,8 +1897,12 @@ class _Simu(_IObserver, _params.Updatable, ABC):
 
         if self.isNonLinear:
             # dofsValues = dofsValues - u
-            # set incremental dof values
-            dofsValues -= self._Solver_Get_Newton_Raphson_current_solution()[dofs]
+            # set incremental dof values. A dof entered several times holds the sum of its
+            # entries, so the current solution must be removed once per dof, not once per entry.
+            _, first = np.unique(dofs, return_index=True)
+            dofsValues[first] -= self._Solver_Get_Newton_Raphson_current_solution()[
+                dofs[first]
+            ]
 
         if algo == AlgoType.euler_explicit:
             # the solve variable is a^n: constrained DOFs have zero acceleration
